@@ -415,6 +415,10 @@ type c12run struct {
 }
 
 // c12exec runs a compared script: a barrier after every frame.
+// c12otherTypesAnswered: do Capability and Cancel frames aimed at an object's method get an answer?
+// (observed once per run of the harness; decides which frames need a barrier)
+var c12otherTypesAnswered = true
+
 func c12exec(root string, frames []c12frame, nconn int) (*c12run, error) {
 	ch, err := c12start(root)
 	if err != nil {
@@ -461,7 +465,7 @@ func c12exec(root string, frames []c12frame, nconn int) (*c12run, error) {
 		}
 		r.writeFrame(f.typ, f.svc, f.obj, f.act, f.id, f.payload)
 		run.frames = append(run.frames, f)
-		if f.typ == net.Call || f.typ == net.Capability || f.typ == net.Cancel {
+		if f.typ == net.Call || ((f.typ == net.Capability || f.typ == net.Cancel) && (c12otherTypesAnswered || f.svc == 0)) {
 			// every such frame is answered by somebody: its answer closes the step
 			if !r.await(f.id, c12Answer) {
 				run.stuck = true
@@ -851,8 +855,17 @@ func runC12(res *hx.Result, rng *hx.Rng, tier string, outdir string) {
 		}
 		ch.stop()
 	}
-	cfg := fmt.Sprintf("Definition g : hcfg := {| h_dup_relock := %s; h_uid_global := %s; h_write_blocks := %s; h_removed_answers := %s |}.",
-		hx.Bool(sw["dup_relock"]), hx.Bool(uidGlobal), hx.Bool(sw["write_blocks"]), hx.Bool(removedAnswers))
+	// Capability / Cancel frames aimed at a method: executed and answered (C04's subject; only to evaluate the model)
+	if ch, err := c12start(root); err == nil {
+		if h, err := c12dial(ch.dir); err == nil {
+			h.writeFrame(net.Cancel, ch.svc, 1, 80, 13, nil)
+			c12otherTypesAnswered = h.await(13, 400*time.Millisecond)
+			h.c.Close()
+		}
+		ch.stop()
+	}
+	cfg := fmt.Sprintf("Definition g : hcfg := {| h_dup_relock := %s; h_uid_global := %s; h_write_blocks := %s; h_removed_answers := %s; h_other_types_run := %s |}.",
+		hx.Bool(sw["dup_relock"]), hx.Bool(uidGlobal), hx.Bool(sw["write_blocks"]), hx.Bool(removedAnswers), hx.Bool(c12otherTypesAnswered))
 	cf := hx.NewCases(outdir, "C12", "From QV Require Import Hostile C12Run.", "hmismatches g cases", res, "cases", "hcase")
 	cf.Extra = append(cf.Extra, cfg)
 
